@@ -8,7 +8,8 @@ from engine import symex, symfile
 from engine.symex import CTX, PatchDoesNotApply
 from engine.symfile import BV64, SymBytes, SymFile, Disk, bv, W, side
 from props import bundle
-from props.bundle import V2, inv_v2, le_bytes, U, IDX2, load_compact, run_sym, ModelFile, model_byte_fn, map_byte_fn
+from props.bundle import (V2, inv_v2, le_bytes, U, IDX2, load_compact, run_sym, ModelFile, model_byte_fn, map_byte_fn, V1, inv_v1, disjoint_v1,
+                          DATA1_TABLE_END)
 
 MOD = 'props.C19_bundle'
 
@@ -158,6 +159,9 @@ def run_v2(spec):
 
 def replay(body):
     c = body['cex']
+    if c.get('v1'):
+        ok, detail, _ = native_check_v1(c, map_byte_fn(c.get('idx_bytes', {})), map_byte_fn(c.get('dat_bytes', {})), _patches(body))
+        return ok, detail
     if 'live_size' in c or 'size' in c and 'fsize' in c:
         r = run_defrag(dict(args=body['args'], kind='holds'))
         return r.get('status') == 'sat' and bool(r.get('replayed')), r.get('detail', '')
@@ -167,6 +171,189 @@ def replay(body):
     ok, detail, f = native_check_v2(body['args']['op'], c['L'], c['x'], c['y'], c['x2'], c['y2'], c['payload'], c['a'],
                                     map_byte_fn(c.get('bytes', {})), _patches(body))
     return ok, detail
+
+
+class _STile(object):
+    def __init__(self, coord, source):
+        self.coord, self.source, self.stored = coord, source, False
+
+
+def goal_store_v1(C, nbytes, part=None):
+    st = V1(C, nbytes)
+    s = CTX.solver
+    off_o, size_o = st.entry(st.idx0, st.dat0, st.x, st.y)
+    off_b, size_b = st.entry(st.idx0, st.dat0, st.x2, st.y2)
+    same = st.same_slot()
+    s.add(inv_v1(st.dat0, st.Ld, off_o, size_o), inv_v1(st.dat0, st.Ld, off_b, size_b),
+          z3.Or(same, disjoint_v1(off_o, size_o, off_b, size_b)))
+    st.b.store_tiles([_STile((BV64(st.x), BV64(st.y), 0), SymBytes(st.d))])
+    idx1 = st.disk.files['/b/R0000C0000.bundlx'][0]
+    dat1, Ld1 = st.disk.files['/b/R0000C0000.bundle']
+    Ld1 = bv(Ld1)
+    off_w, size_w = st.entry(idx1, dat1, st.x, st.y)
+    off_a, size_a = st.entry(idx1, dat1, st.x2, st.y2)
+    a = st.a
+    in_b = z3.And(off_b != 0, z3.UGE(a, off_b), z3.ULT(a, off_b + 4 + size_b))
+    parts = {
+        'readback': z3.And(off_w == st.Ld, size_w == nbytes, *[z3.Select(dat1, st.Ld + 4 + i) == st.d[i] for i in range(nbytes)]),
+        'written-inv': inv_v1(dat1, Ld1, off_w, size_w),
+        'other-entry': z3.Implies(z3.Not(same), z3.And(off_a == off_b, size_a == size_b)),
+        'other-bytes': z3.Implies(z3.And(z3.Not(same), in_b), z3.Select(dat1, a) == z3.Select(st.dat0, a)),
+        'other-inv': z3.Implies(z3.Not(same), z3.And(inv_v1(dat1, Ld1, off_b, size_b), disjoint_v1(off_w, size_w, off_b, size_b))),
+        'length': Ld1 == st.Ld + 4 + nbytes,
+        'no-overflow': z3.And(*side()) if side() else z3.BoolVal(True),
+    }
+    st.parts = parts
+    goal = parts[part] if part else z3.And(*parts.values())
+    return goal, st
+
+
+def goal_remove_v1(C, nbytes, part=None):
+    st = V1(C, 1)
+    s = CTX.solver
+    off_b, size_b = st.entry(st.idx0, st.dat0, st.x2, st.y2)
+    s.add(inv_v1(st.dat0, st.Ld, off_b, size_b))
+    same = st.same_slot()
+    st.b.remove_tile(_STile((BV64(st.x), BV64(st.y), 0), None))
+    idx1 = st.disk.files['/b/R0000C0000.bundlx'][0]
+    dat1, Ld1 = st.disk.files['/b/R0000C0000.bundle']
+    off_w, size_w = st.entry(idx1, dat1, st.x, st.y)
+    off_a, size_a = st.entry(idx1, dat1, st.x2, st.y2)
+    a = st.a
+    parts = {
+        'readback': z3.And(off_w == 0, bv(Ld1) == st.Ld),
+        'other-entry': z3.Implies(z3.Not(same), z3.And(off_a == off_b, size_a == size_b)),
+        'other-bytes': z3.Select(dat1, a) == z3.Select(st.dat0, a),
+        'no-overflow': z3.And(*side()) if side() else z3.BoolVal(True),
+    }
+    goal = parts[part] if part else z3.And(*parts.values())
+    return goal, st
+
+
+def run_v1(spec):
+    a = spec['args']
+    kind, nbytes = a['op'], a.get('n', 3)
+    patches = _patches(spec)
+    try:
+        C = load_compact(True, patches)
+    except PatchDoesNotApply as e:
+        return dict(status='skipped', detail=str(e))
+    goalfn = goal_store_v1 if kind == 'store' else goal_remove_v1
+    if spec['kind'] == 'witness':
+        res, st = run_sym(lambda: (z3.BoolVal(False), goalfn(C, nbytes)[1]))
+    else:
+        res, st = run_sym(lambda: goalfn(C, nbytes, a.get('part')))
+    out = dict(status=res.status, stats=res.stats, detail=res.reason or (res.exc or ''), engine='E4',
+               functions=['BundleV1.store_tiles', 'BundleV1.remove_tile', 'BundleV1._rel_tile_coord', 'BundleIndexV1.tile_offset',
+                          'BundleIndexV1.update_tile_offset', 'BundleIndexV1.remove_tile_offset', 'BundleIndexV1._tile_index_offset',
+                          'BundleDataV1.append_tile'])
+    if res.status == 'sat' and st is not None:
+        m = res.model
+        ev = lambda t: m.eval(t, model_completion=True).as_long()
+        vals = dict(Ld=ev(st.Ld), x=ev(st.x), y=ev(st.y), x2=ev(st.x2), y2=ev(st.y2), a=ev(st.a), payload=[ev(d) for d in st.d], v1=True, op=kind)
+        if spec['kind'] == 'witness':
+            out['cex'] = vals
+            return out
+        ok, detail, reads = native_check_v1(vals, model_byte_fn(m, st.idx0), model_byte_fn(m, st.dat0), patches)
+        vals['idx_bytes'] = {str(k): v for k, v in sorted(reads[0].items())[:200]}
+        vals['dat_bytes'] = {str(k): v for k, v in sorted(reads[1].items())[:400]}
+        out.update(cex=vals, replayed=ok, detail=(out['detail'] + ' | replay: ' + detail).strip(' |'))
+    return out
+
+
+def native_check_v1(vals, idx_at, dat_at, patches):
+    """real BundleV1 code on concrete bytes (two ModelFiles); True = violation reproduced"""
+    import contextlib
+    from props.bundle import IDX1_END
+    C = load_compact(False, patches)
+    Ld, x, y, x2, y2, payload, a = (vals[k] for k in ('Ld', 'x', 'y', 'x2', 'y2', 'payload', 'a'))
+    fi = ModelFile(IDX1_END + 16, idx_at)
+    fd = ModelFile(Ld, dat_at)
+    files = {'/b/R0000C0000.bundlx': fi, '/b/R0000C0000.bundle': fd}
+
+    class FH(object):
+        def __init__(self, f):
+            self.f = f
+
+        def __getattr__(self, k):
+            return getattr(self.f, k)
+
+        def __enter__(self):
+            self.f.seek(0)
+            return self
+
+        def __exit__(self, *a_):
+            pass
+    C.__dict__['__builtins__'] = dict(C.__dict__['__builtins__'])
+    C.__dict__['__builtins__']['open'] = lambda name, mode='r': FH(files[name])
+
+    @contextlib.contextmanager
+    def lock(*a_, **k):
+        yield
+    C.FileLock = lock
+    real_os = C.os
+
+    class OS(object):
+        SEEK_SET, SEEK_END = 0, 2
+
+        class path(object):
+            exists = staticmethod(lambda p: True)
+            join = staticmethod(real_os.path.join)
+    C.os = OS
+
+    @contextlib.contextmanager
+    def tile_buffer(tile):
+        class Buf(object):
+            def read(self_):
+                return tile.source
+        yield Buf()
+    C.tile_buffer = tile_buffer
+    b = C.BundleV1('/b/R0000C0000', (0, 0))
+
+    def entry(xx, yy):
+        idx = C.BundleIndexV1.__new__(C.BundleIndexV1)
+        idx._fh = fi
+        rx, ry = b._rel_tile_coord((xx, yy, 0))
+        off = idx.tile_offset(rx, ry)
+        if off == 0:
+            return 0, 0
+        size = 0
+        for i in range(4):
+            size |= (fd.get(off + i) or 0) << (8 * i)
+        return off, size
+
+    def valid(off, size):
+        return off == 0 or (off >= 60 and off + 4 <= Ld and size <= Ld - off - 4)
+    off_o, size_o = entry(x, y)
+    off_b, size_b = entry(x2, y2)
+    same = (x % 128 == x2 % 128) and (y % 128 == y2 % 128)
+    if not (valid(off_o, size_o) and valid(off_b, size_b)):
+        return False, 'pre-state does not satisfy the invariant (model artefact)', (fi.reads, fd.reads)
+    if not same and off_o and off_b and not (off_o + 4 + size_o <= off_b or off_b + 4 + size_b <= off_o):
+        return False, 'pre-state records overlap (model artefact)', (fi.reads, fd.reads)
+    old_a = fd.get(a)
+    try:
+        if vals['op'] == 'store':
+            b.store_tiles([_STile((x, y, 0), bytes(payload))])
+        else:
+            b.remove_tile(_STile((x, y, 0), None))
+    except Exception as e:
+        return True, 'real code raised %s: %s' % (type(e).__name__, e), (fi.reads, fd.reads)
+    off_w, size_w = entry(x, y)
+    off_a, size_a = entry(x2, y2)
+    if vals['op'] == 'store':
+        got = bytes((fd.get(off_w + 4 + i) or 0) for i in range(len(payload)))
+        if not (off_w == Ld and size_w == len(payload) and got == bytes(payload) and fd.length == Ld + 4 + len(payload)):
+            return True, 'written slot does not read back (entry %s/%s)' % (off_w, size_w), (fi.reads, fd.reads)
+    else:
+        if off_w != 0:
+            return True, 'removed slot still present', (fi.reads, fd.reads)
+    if not same:
+        if (off_a, size_a) != (off_b, size_b):
+            return True, 'entry of another slot changed from %s to %s' % ((off_b, size_b), (off_a, size_a)), (fi.reads, fd.reads)
+        if off_b and off_b <= a < off_b + 4 + size_b and fd.get(a) != old_a:
+            return True, 'byte %d of another record changed' % a, (fi.reads, fd.reads)
+    return False, 'real code behaves correctly on the model bytes', (fi.reads, fd.reads)
 
 
 class _Tile(object):
@@ -429,6 +616,15 @@ def obligations(tier, seed):
             specs.append(_spec('v2/store-step/payload%d/%s' % (n, part), 'run_v2', op='store', n=n, part=part, cost=60))
     for part in ['readback', 'other-entry', 'other-bytes', 'other-inv', 'no-overflow']:
         specs.append(_spec('v2/remove-step/%s' % part, 'run_v2', op='remove', part=part, cost=20))
+    for part in store_parts:
+        specs.append(_spec('v1/store-step/payload3/%s' % part, 'run_v1', op='store', n=3, part=part, cost=60))
+    for part in ['readback', 'other-entry', 'other-bytes', 'no-overflow']:
+        specs.append(_spec('v1/remove-step/%s' % part, 'run_v1', op='remove', part=part, cost=20))
+    specs.append(_spec('twin/v1-store', 'run_v1', kind='witness', op='store', n=3, cost=5))
+    specs.append(_spec('canary/v1 index entry 4 bytes wide', 'run_v1', kind='canary', op='store', n=3, cost=20,
+                       patches={'mapproxy.cache.compact': [["        return BUNDLEX_V1_HEADER_SIZE + (x * BUNDLEX_V1_GRID_HEIGHT + y) * 5", "        return BUNDLEX_V1_HEADER_SIZE + (x * BUNDLEX_V1_GRID_HEIGHT + y) * 4"]]}))
+    specs.append(_spec('canary/v1 record appended over the end of the file', 'run_v1', kind='canary', op='store', n=3, cost=20,
+                       patches={'mapproxy.cache.compact': [["        self._fh.seek(0, os.SEEK_END)\n        offset = self._fh.tell()\n        if offset == 0:", "        self._fh.seek(0, os.SEEK_END)\n        offset = self._fh.tell() - 2\n        if offset == 0:"]]}))
     specs.append(_spec('defrag/rewrite-copies-every-slot', 'run_defrag', cost=30))
     specs.append(_spec('twin/defrag', 'run_defrag', kind='witness', cost=10))
     specs.append(_spec('canary/defrag skips the last column', 'run_defrag', kind='canary', cost=20,
